@@ -83,7 +83,7 @@ def main():
         if p in CLAIMS and p in have:
             text, ref = CLAIMS[p]
             n_q = sum(1 for h in hs if p in h.props and h.tier == "quick")
-            n_t = sum(1 for h in hs if p in h.props)
+            n_t = sum(1 for h in hs if p in h.props and h.tier in ("quick", "thorough"))
             checks.append({
                 "property_id": p,
                 "quick_cmd": "./check %s quick" % p,
